@@ -35,6 +35,14 @@ fn injRes(a: i32) -> str ! i32 {
 
 fn injTake(a: i32, b: i64) -> i32 {
     return a;
+}
+
+fn (s: &InjS) injGet(k: i32) -> i32 {
+    return s.A + k;
+}
+
+fn injSum(v: []i32) -> i32 {
+    return len(v);
 }`
 
 var c03Rules = []c03Rule{
@@ -153,15 +161,45 @@ var c03Wrappers = []struct{ name, pre, text string; forBool bool }{
 	{"while-condition", "", "while $E {\n        break;\n    }", true},
 	{"logical-operand", "", "let iw := true && $E;", true},
 	{"not-operand", "", "let iw := !($E);", true},
+	{"range-start", "", "for rq in $E..3 {\n        let iz: i32 = 0;\n    }", false},
+	{"range-end", "", "for rq in 0..$E {\n        let iz: i32 = 0;\n    }", false},
+	{"range-inclusive-end", "", "for rq in 0..=$E {\n        let iz: i32 = 0;\n    }", false},
+	{"range-step", "", "for rq in 0..9:$E {\n        let iz: i32 = 0;\n    }", false},
+	{"range-two-variable", "", "for rk, rq in 0..$E {\n        let iz: i32 = 0;\n    }", false},
+	{"for-over-array-literal", "", "for rq in [1, $E] {\n        let iz: i32 = 0;\n    }", false},
+	{"for-over-call-argument", "", "for rq in [injTake($E, 2), 1] {\n        let iz: i32 = 0;\n    }", false},
+	{"append-value", "let ix: []i32 = [1, 2, 3];", "append(&'ix, $E);", false},
+	{"map-literal-value", "", "let im := {\"a\" => $E} as map[str]i32;", false},
+	{"coalescing-default", "let iop: i32? = none;", "let iw := iop ?? $E;", false},
+	{"power-operand", "", "let iw := 2 ** ($E);", false},
+	{"string-index", "let istr := \"abcdefgh\";", "let iw := istr[$E];", false},
+	{"catch-handler-statement", "", "let iw := injRes(1) catch ier {\n        let iz: i32 = $E;\n    } 0;", false},
+	{"const-initialiser", "", "const ick: i32 = $E;", false},
+	{"typed-let-initialiser", "", "let iw: i32 = $E;", false},
+	{"optional-initialiser", "", "let iw: i32? = $E;", false},
+	{"cast-composite-field", "", "let iw := { .A = $E, .B = 2 } as InjS;", false},
+	{"closure-call-argument", "let icl := fn(a: i32) -> i32 {\n        return a;\n    };", "let iw := icl($E);", false},
+	{"method-call-argument", "let iv2: InjS = { .A = 1, .B = 2 };", "let iw := iv2.injGet($E);", false},
+	{"array-argument-element", "", "let iw := injSum([1, $E]);", false},
+	{"string-concat-operand", "", "let iw := \"n=\" + ($E);", false},
+	{"while-comparison", "", "while $E == 12345 {\n        break;\n    }", false},
+	{"nested-index", "let ix: []i32 = [1, 2, 3];", "let iw := ix[ix[$E]];", false},
+	{"compound-element-rhs", "let ix: []i32 = [1, 2, 3];", "ix[1] += $E;", false},
+	{"match-arm-statement", "", "match 1 {\n        1 => { let iz: i32 = $E; }\n        _ => { let iz: i32 = 1; }\n    }", false},
+	{"else-if-condition", "", "if false {\n        let iz: i32 = 0;\n    } else if $E {\n        let iy: i32 = 1;\n    }", true},
+	{"bool-let-initialiser", "", "let iw: bool = $E;", true},
+	{"logical-or-left", "", "let iw := $E || false;", true},
+	{"bool-comparison", "", "let iw := ($E) == true;", true},
+	{"bool-call-argument", "let icb := fn(a: bool) -> bool {\n        return a;\n    };", "let iw := icb($E);", true},
 }
 
 // c03ExprSpellings returns rule -> extra statement spellings (violation nested in an expression context).
-func c03ExprSpellings() (map[string][]string, map[string]string) {
+func c03ExprSpellings(dropped map[string]bool) (map[string][]string, map[string]string) {
 	out := map[string][]string{}
 	ctxOf := map[string]string{}
 	for _, be := range c03BadExprs {
 		for _, w := range c03Wrappers {
-			if w.forBool != be.isBool {
+			if w.forBool != be.isBool || dropped[w.name] {
 				continue
 			}
 			var b strings.Builder
@@ -181,17 +219,68 @@ func c03ExprSpellings() (map[string][]string, map[string]string) {
 
 func checkC03(c *Ctx) error {
 	r := c.R
-	r.Rule = "base = generated well-typed program accepted by the real compiler; mutant = base + exactly one violation from the 17-rule catalogue (several spellings per rule) injected as a self-contained snippet at a random site of a random context {main, function, method, closure, if, else, while, for, match-arm, block}, or as an extra top-level function for function-level rules; every mutant must be rejected (exit 1, >=1 error diagnostic, no crash); a sample of mutants per rule is also compiled natively to confirm that no executable is left. non-trivial = a distinct (base, rule, spelling, site) mutant whose base was accepted and whose verdict was decided"
+	r.Rule = "base = generated well-typed program accepted by the real compiler; mutant = base + exactly one violation from the 17-rule catalogue (several spellings per rule) injected as a self-contained snippet at a random site of a random context {main, function, method, closure, if, else, while, for, match-arm, block}, or as an extra top-level function for function-level rules; ill-typed expressions are also nested in 52 expression contexts (call/method/closure arguments, literals of structs, arrays and maps, indices, casts, conditions, match subjects, assignment right-hand sides, range start/end/step, iterated literals, append, ??, **, catch handlers and fallbacks, const/optional initialisers, string operands ...), each context first validated with a well-typed operand, and every (expression, context) pair is checked once in a minimal program; every mutant must be rejected (exit 1, >=1 error diagnostic, no crash); a sample of mutants per rule is also compiled natively to confirm that no executable is left. non-trivial = a distinct (base, rule, spelling, site) mutant whose base was accepted and whose verdict was decided"
 	r.Assumptions = []string{"snippets declare every name they use (prefix i*/inj*), so the base's typing is unaffected: exactly one rule is violated by construction"}
 	nBase := c.N(14, 400)
 	gates := gatedFeatures(c)
 	type mut struct {
 		id, rule, spelling, ctx string
 		src                     string
+		base                    int // index of the generated base, -1 = minimal program
 	}
 	var bases []string
 	var muts []mut
-	exprSp, exprCtx := c03ExprSpellings()
+	// controls: every expression context, filled with a well-typed expression, must be accepted in
+	// a minimal program; a context that is not is dropped (reported as inconclusive), because a
+	// rejection of its mutants would prove nothing
+	minimal := func(snippet string) string {
+		return "import \"std/io\";\n\n" + c03Support + "\n\nfn main() {\n    " + snippet + "\n}\n"
+	}
+	wrapSnippet := func(pre1, pre2, text, e string) string {
+		var b strings.Builder
+		b.WriteString("{\n")
+		for _, pre := range []string{pre1, pre2} {
+			if pre != "" {
+				b.WriteString("    " + pre + "\n")
+			}
+		}
+		b.WriteString("    " + strings.ReplaceAll(text, "$E", e) + "\n}")
+		return b.String()
+	}
+	var ctl []TC
+	for _, w := range c03Wrappers {
+		good := "1"
+		if w.forBool {
+			good = "true"
+		}
+		ctl = append(ctl, TC{ID: "control:" + w.name, Files: map[string]string{"main.fer": minimal(wrapSnippet("", w.pre, w.text, good))}})
+	}
+	ctlRes, _, err := c.TypecheckAll("c03ctl", ctl)
+	if err != nil {
+		return err
+	}
+	dropped := map[string]bool{}
+	for i, w := range c03Wrappers {
+		r.Eval()
+		if !ctlRes[i].Accepted() {
+			dropped[w.name] = true
+			r.Inconclusive(fmt.Sprintf("expression context %s is not accepted with a well-typed operand (%s): dropped", w.name, ctlRes[i].FirstError()))
+			continue
+		}
+		r.Count("contexts_with_accepted_control", 1)
+	}
+	exprSp, exprCtx := c03ExprSpellings(dropped)
+	// every (ill-typed expression, context) pair once in a minimal program, independent of the
+	// rotation over generated bases
+	for bi, be := range c03BadExprs {
+		for _, w := range c03Wrappers {
+			if w.forBool != be.isBool || dropped[w.name] {
+				continue
+			}
+			sn := wrapSnippet(be.pre, w.pre, w.text, be.expr)
+			muts = append(muts, mut{id: fmt.Sprintf("min:%s:%s:%d", be.rule, w.name, bi), rule: be.rule, spelling: sn, ctx: "minimal/" + w.name, src: minimal(sn), base: -1})
+		}
+	}
 	rules := make([]c03Rule, len(c03Rules))
 	for i, rule := range c03Rules {
 		rules[i] = rule
@@ -238,12 +327,12 @@ func checkC03(c *Ctx) error {
 					if w := exprCtx[rule.stmt[sp]]; w != "" {
 						cx += "/" + w
 					}
-					muts = append(muts, mut{id: id, rule: rule.name, spelling: rule.stmt[sp], ctx: cx, src: p.Source()})
+					muts = append(muts, mut{id: id, rule: rule.name, spelling: rule.stmt[sp], ctx: cx, src: p.Source(), base: b})
 					undo()
 				} else {
 					d := rule.decls[sp-len(rule.stmt)]
 					p.RawDecls = append(p.RawDecls, d)
-					muts = append(muts, mut{id: id, rule: rule.name, spelling: d, ctx: "top-level-function", src: p.Source()})
+					muts = append(muts, mut{id: id, rule: rule.name, spelling: d, ctx: "top-level-function", src: p.Source(), base: b})
 					p.RawDecls = p.RawDecls[:len(p.RawDecls)-1]
 				}
 			}
@@ -272,9 +361,7 @@ func checkC03(c *Ctx) error {
 	sampled := map[string]int{}
 	var nativeSample []int
 	for k, m := range muts {
-		var b int
-		fmt.Sscanf(strings.SplitN(m.id, ":", 4)[2], "%d", &b)
-		if !baseOK[b] {
+		if m.base >= 0 && !baseOK[m.base] {
 			continue
 		}
 		res := results[len(bases)+k]
